@@ -9,6 +9,7 @@ pub mod c08;
 pub mod bddutil;
 pub mod c13;
 pub mod c14;
+pub mod c15;
 pub mod c09;
 
 pub struct Prop {
@@ -26,5 +27,6 @@ pub fn registry() -> Vec<Prop> {
         Prop { id: "C09", run: c09::run, replay: c09::replay },
         Prop { id: "C13", run: c13::run, replay: c13::replay },
         Prop { id: "C14", run: c14::run, replay: c14::replay },
+        Prop { id: "C15", run: c15::run, replay: c15::replay },
     ]
 }
